@@ -216,7 +216,7 @@ const rule = "StreamStats: rapid-generated histories over 1..6 accumulators of u
 	"multiset per accumulator; after every step the touched accumulator, and at the end every accumulator, is compared with " +
 	"400-bit batch values of Count, Weight, Total, Min, Max, Mean, RMS, Variance, StdDev; the source of a Combine must stay " +
 	"bit-identical. Plus: every split point of generated streams, both merge directions. Non-trivial: a Combine with a non-empty " +
-	"side occurred and the accumulator holds >=2 values. distinct = canonical JSON of the history."
+	"side occurred and the accumulator holds >=2 values. distinct = canonical JSON of the history. Later additions: adjacent-float values, long split streams, non-stationary streams (first or a middle value an outlier 20..1e6 spreads away, one level shift)."
 
 // drawValues returns the source of the values of one case. A stream is not always stationary:
 // in a quarter of the cases the very first value (the one an algorithm would take as its
